@@ -10,6 +10,43 @@ CHECKS = [
         note="Valid operation = the method's own assertions plus distinctness of new keys; CPython dict/list compare equal-hash keys with ==; no float-NaN members; shapes beyond 6 values are outside the claim.",
         technique=TECH,
     ),
+
+    dict(
+        property_id="C03",
+        text="Bounded symbolic model checking of the real transform pipeline and base discretizers: (O3.1) symbolic boundaries b1<...<b(m-1)+inf, every contiguous grouping applied through the real convert_to_labels/group_list/convert_to_values, a real BaseDiscretizer fitted and two symbolic probe rows x1<=x2 transformed: z3 proves on every path that the label is that of the first group whose leader >= x, leaders are group maxima and the float output is monotone; (O3.2) real find_quantiles/fit_feature on symbolic reals: boundaries sorted, observed, +inf last; (O3.3) real OrdinalDiscretizer.fit with solver-chosen counts, symbolic target and symbolic min_freq: groups are contiguous runs of the ranking.",
+        design_ref="DESIGN.md 6/C03",
+        note="Bounds: m<=4 (quick)/6 (thorough) boundaries; n<=9/12 sorted or <=4/6 unsorted symbolic rows; ordinal m<=4/5 modalities, N<=6/10 rows. Rebindings R1,R2,R3 (DESIGN 3.4). Categorical target-rate ordering is checked in C09/C01 harnesses, not here.",
+        technique=TECH,
+    ),
+    dict(
+        property_id="C04",
+        text="Bounded symbolic model checking of the real label table and transform kernel: symbolic boundaries, every contiguous grouping, NaN absent/alone/merged, both output dtypes: z3 proves transform output = label of the first group whose upper bound >= value, float labels = group ranks, members carry their group's label, NaN rows per dropna; qualitative features on a solver-chosen frame over a concrete category universe (incl. numeric-valued members). Label-text injectivity (O4.2): z3 finds reals sharing a %.Pe rounding cell, witnesses replayed on the real get_labels and a real BinaryCarver.fit.",
+        design_ref="DESIGN.md 6/C04",
+        note="O4.2 is witness-based (z3 produces colliding candidates for the documented 4-significant-digit format and adjacent doubles; the real code must separate them). Category text is concrete. m<=4/6 boundaries.",
+        technique=TECH + "; SMT rounding-cell query for label text",
+        crosshair=False,
+    ),
+    dict(
+        property_id="C05",
+        text="Bounded symbolic model checking of transform on unseen data: quantitative probe rows are unconstrained symbolic reals (inside, outside, on the boundaries), NaN rows, empty and single-row frames: z3 proves every output is a fitted label, no exception on finite values, AssertionError naming the feature on unexpected NaN; qualitative rows are solver-chosen among known members, unseen values and NaN for six fitted configurations (with/without default group).",
+        design_ref="DESIGN.md 6/C05",
+        note="Qualitative category text is concrete (pandas.replace compares natively): the symbolic variable is which value each row takes. m<=4/6 boundaries, frames <=2/3 rows.",
+        technique=TECH,
+    ),
+    dict(
+        property_id="C08",
+        text="Bounded symbolic model checking of the fit kernels: real find_quantiles/np_find_quantiles/fit_feature on symbolic reals (no internal error, unique strictly increasing leaders, partition invariant), real OrdinalDiscretizer.fit with solver-chosen counts / symbolic target / symbolic min_freq (terminates, well-formed partition).",
+        design_ref="DESIGN.md 6/C08",
+        note="n<=9/12 rows sorted, <=4/6 unsorted; q in 2..10; ordinal m<=4/5. API-tier obligations (complete fits of every class) are added by later rounds of this build.",
+        technique=TECH,
+    ),
+    dict(
+        property_id="C09",
+        text="Bounded symbolic model checking of the base discretizers' min_freq contract: real OrdinalDiscretizer.fit (every bucket >= min_freq of the rows unless one remains, NaN separate) for symbolic min_freq in (0,0.5]; real find_quantiles (strictly increasing observed boundaries then inf, every value with count >= len/q is a boundary, no bucket free of frequent values above 2.5*len/q rows).",
+        design_ref="DESIGN.md 6/C09",
+        note="Quantitative claim is stated through q = round(1/min_freq) in 2..10; frequencies compared as one float division (F3/F4).",
+        technique=TECH,
+    ),
 ]
 
 ALL = ["C%02d" % i for i in range(1, 20)]
